@@ -83,7 +83,15 @@ def one_replicate(spec):
     wd = Path(tempfile.mkdtemp(prefix="c04_"))
     try:
         rows = simulate(spec)
-        case = {"files": [{"rows": rows}], "folds": spec["folds"], "workers": 1, "cap": spec.get("cap"), "keyw": 2, "fmt": "pin",
+        nfiles = int(spec.get("nfiles", 1))
+        if nfiles > 1:
+            # jointly modelled files with EXACTLY the same number of rows (different PSMs)
+            per = len(rows) // nfiles
+            files = [{"rows": rows[k * per:(k + 1) * per]} for k in range(nfiles)]
+            rows = [r for f in files for r in f["rows"]]
+        else:
+            files = [{"rows": rows}]
+        case = {"files": files, "refeed_seed": spec.get("refeed_seed"), "folds": spec["folds"], "workers": 1, "cap": spec.get("cap"), "keyw": 2, "fmt": "pin",
                 "thr": [1, 20], "train_thr": [1, 20], "seed": spec["seed"], "est": spec["est"], "col": 1, "override": True,
                 "max_iter": 3, "direction": "f1" if spec["est"] in ("memo", "feat") else None, "leak": spec.get("leak", False)}
         if spec.get("leak"):
@@ -122,12 +130,15 @@ def one_replicate(spec):
         _, models, scs, descs = info["ret"]
         dest = wd / "res"
         dest.mkdir()
-        mokapot.assign_confidence(info["datasets"], max_workers=1, scores=[np.asarray(scs[0], dtype=float)], descs=list(descs),
-                                  eval_fdr=0.05, dest_dir=dest, prefixes=[None], decoys=False, peps_algorithm="stub")
+        pfx = [None] if nfiles == 1 else ["c%d" % k for k in range(nfiles)]
+        mokapot.assign_confidence(info["datasets"], max_workers=1, scores=[np.asarray(x, dtype=float) for x in scs], descs=list(descs),
+                                  eval_fdr=0.05, dest_dir=dest, prefixes=pfx, decoys=False, peps_algorithm="stub")
         truth = {r["id"]: r["correct"] for r in rows}
         out = {"raised": "", "levels": {}}
         for lvl in ("psms", "peptides"):
-            _, rws = mk.read_result(dest / ("targets." + lvl))
+            rws = []
+            for px in pfx:
+                rws += mk.read_result(dest / ((px + "." if px else "") + "targets." + lvl))[1]
             lv = {}
             for apm, a in ALPHAS:
                 acc = [r for r in rws if float(r["q-value"]) <= a]
@@ -151,12 +162,17 @@ def flip_pair(spec):
         tgt = bool(rng.random() < 0.5)
         rows.append({"id": i, "spec": i + 1, "tgt": tgt, "f": [int(rng.integers(0, 60)) + (30 if tgt and rng.random() < 0.5 else 0), int(rng.integers(0, 50))]})
     x = int(rng.integers(0, n))
-    base = {"files": [{"rows": rows}], "folds": spec["folds"], "workers": 1, "cap": None, "keyw": 2, "fmt": "pin", "thr": [1, 1],
+    nfiles = int(spec.get("nfiles", 1))
+    per = n // nfiles
+    files = [{"rows": rows[k * per:(k + 1) * per]} for k in range(nfiles)]      # equal row counts
+    x = min(x, per * nfiles - 1)
+    base = {"files": files, "refeed_seed": spec.get("refeed_seed"), "folds": spec["folds"], "workers": 1, "cap": None, "keyw": 2, "fmt": "pin", "thr": [1, 1],
             "train_thr": [1, 1], "seed": spec["seed"], "est": spec.get("est", "memo"), "col": 1, "override": True, "max_iter": 2}
     try:
         ta, _ = brewrun.run_brew(copy.deepcopy(base))
         b = copy.deepcopy(base)
-        b["files"][0]["rows"][x]["tgt"] = not b["files"][0]["rows"][x]["tgt"]
+        rx = next(r for f in b["files"] for r in f["rows"] if r["id"] == x)
+        rx["tgt"] = not rx["tgt"]
         tb, _ = brewrun.run_brew(b)
     except Exception as e:
         return {"harness_error": "%s: %s" % (type(e).__name__, e)}
@@ -187,11 +203,18 @@ def run(ctx):
                       "est": "memo", "cap": 500 + 100 * (r % 3), "group": "memo+cap"})
         extra.append({"seed": ctx.seed * 100000 + 600000 + r, "n": 1600, "pi0": 0.5, "sep": [2.5, 3.0][r % 2], "folds": 2 + r % 3,
                       "est": ["feat", "tree"][r % 2], "family": "paired", "group": "paired-ties/" + ["feat", "tree"][r % 2]})
+    # jointly modelled files of equal size, and trained fold models re-applied under another seed (both with the memoriser)
+    for r in range(reps):
+        extra.append({"seed": ctx.seed * 100000 + 700000 + r, "n": 1600, "pi0": 0.5, "sep": [2.0, 3.0][r % 2], "folds": 2 + r % 3,
+                      "est": "memo", "nfiles": 2, "group": "memo+2files"})
+        extra.append({"seed": ctx.seed * 100000 + 800000 + r, "n": 1500, "pi0": 0.5, "sep": [2.0, 3.0][r % 2], "folds": 2 + r % 3,
+                      "est": "memo", "refeed_seed": 1 + r, "group": "memo+reseed"})
     specs += extra
     nleak = 6
     for r in range(nleak):     # instrument check: with leaky training sets the memoriser must break the bound
         specs.append({"seed": ctx.seed * 100000 + 900000 + r, "n": 1500, "pi0": 0.6, "sep": 2.0, "folds": 3, "est": "memo", "leak": True})
-    flips = [{"seed": ctx.seed * 1000 + j, "n": 150, "folds": 2 + j % 4, "est": ["memo", "feat"][j % 5 == 4]} for j in range(30 if ctx.quick else 300)]
+    flips = [{"seed": ctx.seed * 1000 + j, "n": 150, "folds": 2 + j % 4, "est": ["memo", "feat"][j % 5 == 4],
+              "nfiles": 2 if j % 3 == 1 else 1, "refeed_seed": (j + 11) if j % 3 == 2 else None} for j in range(30 if ctx.quick else 300)]
     ctx.phase("driving")
     res = pmap(lambda i: one_replicate(specs[i]), len(specs), chunk=1)
     fres = pmap(lambda i: flip_pair(flips[i]), len(flips), chunk=2)
@@ -201,7 +224,7 @@ def run(ctx):
     # ---- FdrTrace groups: (learner, level, alpha) over replicates
     traces, meta = [], []
     failed_runs = sum(1 for s, r in zip(specs, res) if r["raised"])
-    for est in learners + ["memo+cap", "paired-ties/feat", "paired-ties/tree", "memo+leak"]:      # one group per learner: a mixture of learners would inflate the SE
+    for est in learners + ["memo+cap", "paired-ties/feat", "paired-ties/tree", "memo+2files", "memo+reseed", "memo+leak"]:      # one group per learner: a mixture of learners would inflate the SE
         sel = [r for s, r in zip(specs, res) if (s.get("group") or (s["est"] + ("+leak" if s.get("leak") else ""))) == est and not r["raised"]]
         if len(sel) < 2:
             continue
